@@ -23,7 +23,8 @@ open Pyro Pyro.Expose
 def genCfg : Cfg :=
   { callTypeFirst := Pyro.Gen.C02.callGateTypeFirst
     getPriv := Pyro.Gen.C02.getGatePrivate
-    setPriv := Pyro.Gen.C02.setGatePrivate }
+    setPriv := Pyro.Gen.C02.setGatePrivate
+    nonStrType := Pyro.Gen.C02.privateGateNonStrTypeError }
 
 /-- **C02_served_sound.**  Whatever a request names — normal call, oneway call, attribute read, attribute
     write or a batch of any length — every piece of target code that runs is code of a member that (i) one
@@ -97,9 +98,9 @@ theorem C02_refused_no_effect_not_full (cfg : Cfg) : ¬ RefusedNoEffect cfg := b
     cases hm
     simp [memberExposed] at he
   have h2 := (h f2bShape f2bReq rfl hna).2
-  obtain ⟨a, b, c⟩ := cfg
+  obtain ⟨a, b, c, d⟩ := cfg
   revert h2
-  cases a <;> cases b <;> cases c <;> decide
+  cases a <;> cases b <;> cases c <;> cases d <;> decide
 
 /-- **C02_batch_refused.**  A batch that contains a single name which is not an allowed member is refused as
     a whole (its effects are covered by `C02_served_sound`: only allowed members named before it ran). -/
@@ -387,11 +388,11 @@ theorem C02_unfixed_call_gate_unsound (cfg : Cfg) (h : cfg.callTypeFirst = false
     cases hm
     simp [memberExposed, primary, exposedOpt] at he
   have h2 := (hs f2aShape f2aReq f2aShape_noHelper rfl hna).2
-  obtain ⟨a, b, c⟩ := cfg
+  obtain ⟨a, b, c, d⟩ := cfg
   simp only at h
   subst h
   revert h2
-  cases b <;> cases c <;> decide
+  cases b <;> cases c <;> cases d <;> decide
 
 /-- witness of F2c: `_h = property(expose(hidden), expose(hidden_setter))`, read and written by attribute requests -/
 def f2cShape : Shape :=
@@ -416,19 +417,19 @@ theorem C02_unfixed_attr_gate_unsound (cfg : Cfg) (h : cfg.getPriv = false ∨ c
     cases this
     rintro ⟨hp, _⟩
     rw [hpriv] at hp; cases hp
-  obtain ⟨a, b, c⟩ := cfg
+  obtain ⟨a, b, c, d⟩ := cfg
   simp only at h
   cases h with
   | inl hb =>
     subst hb
     have h2 := (hs f2cShape f2cGet f2cShape_noHelper rfl (hna f2cGet (by decide))).2
     revert h2
-    cases a <;> cases c <;> decide
+    cases a <;> cases c <;> cases d <;> decide
   | inr hc =>
     subst hc
     have h2 := (hs f2cShape f2cSet f2cShape_noHelper rfl (hna f2cSet (by decide))).2
     revert h2
-    cases a <;> cases b <;> decide
+    cases a <;> cases b <;> cases d <;> decide
 
 /-! ### obligations about facts extracted from the current source (PyroModel/Gen/C02.lean) -/
 
